@@ -9,6 +9,8 @@ CONSTANTS
   Families = {}
   N = 6
   Reps = {1}
+  RuleCounts = {1}
+  ListLens = {1}
   MaxRounds = 3
   NEvents = 1
 INVARIANTS TraceNotStuck ReportedOK ConvergedAtEnd TaskOK NeverEmptyT
